@@ -6,6 +6,7 @@ mod exec;
 mod lanes;
 mod ledger;
 mod ops;
+mod reps;
 mod sched;
 mod shrink;
 
@@ -21,6 +22,8 @@ fn arg(args: &[String], name: &str) -> Option<String> {
 macro_rules! dispatch {
     ($prop:expr, $f:ident, $($a:expr),*) => {
         match $prop {
+            "C11" => $f::<lanes::c11::C11>($($a),*),
+            "C12" => $f::<lanes::c12::C12>($($a),*),
             "C17" => $f::<lanes::c17::C17>($($a),*),
             other => {
                 eprintln!("unknown property {other}");
@@ -50,6 +53,11 @@ fn do_replay<L: Lane>(path: &str) -> i32 {
                         }
                     }
                 }
+            }
+            if want.class == "process_killed" {
+                // reaching this line means the scenario did not kill the process this time
+                println!("NOT-REPRODUCED property={} signature=\"{}\"", rf.property, want.signature);
+                return 0;
             }
             if same {
                 println!("REPRODUCED property={} signature=\"{}\"", rf.property, want.signature);
